@@ -10,7 +10,7 @@ PROPS = {
                 scenarios=["s01", "s02", "s03", "s04", "s05", "s06", "s07", "s10", "s13", "s14"], deep=["s03"]),
     "C02": dict(props="Props/C02.v", runner="conc",
                 families=["basic", "mixed", "guards", "helping", "cas", "multi"],
-                scenarios=["s01", "s02", "s03", "s04", "s07", "s08", "s09", "s11", "s13", "s14", "s16"]),
+                scenarios=["s01", "s02", "s03", "s04", "s07", "s08", "s09", "s11", "s13", "s14", "s16"], acc_check=True),
     "C03": dict(props="Props/C03.v", runner="conc",
                 families=["mixed", "guards", "nofast", "helping", "cas", "multi"],
                 scenarios=["s01", "s03", "s04", "s05", "s06", "s08", "s09"]),
